@@ -4,6 +4,7 @@ import (
 	"errors"
 	"fmt"
 
+	"github.com/mikefarah/yq/v4/pkg/verifhook"
 	"github.com/mikefarah/yq/v4/pkg/yqlib"
 	"github.com/spf13/cobra"
 )
@@ -95,6 +96,7 @@ func evaluateSequence(cmd *cobra.Command, args []string) (cmdError error) {
 		return err
 	}
 
+	out = verifhook.Writer("out", out)
 	printerWriter, err := configurePrinterWriter(format, out)
 	if err != nil {
 		return err
